@@ -63,6 +63,20 @@ class BIP85DeterministicEntropy(object):
         return self._hmac_sha512(msg=bytes(node.private_key))
 
     @staticmethod
+    def path_number(value: int) -> int:
+        """
+        Checks that value destined for derivation path is an integer.
+        Anything else (fraction, string, ...) could smuggle path separators
+        or markers into the path string.
+
+        :param value: application parameter or index
+        :return: value
+        """
+        if isinstance(value, bool) or not isinstance(value, int):
+            raise ValueError("{!r} is not an integer".format(value))
+        return value
+
+    @staticmethod
     def byte_count_from_word_count(word_count: int) -> int:
         """
         Determines correct byte length from mnemonic word count.
@@ -109,7 +123,9 @@ class BIP85DeterministicEntropy(object):
         :return: mnemonic sentence
         """
         # for now (and maybe forever) only supported language is english
-        path = "m/83696968'/39'/0'/{}'/{}'".format(word_count, index)
+        path = "m/83696968'/39'/0'/{}'/{}'".format(
+            self.path_number(word_count), self.path_number(index)
+        )
         entropy = self.entropy(path=path)
         width = self.byte_count_from_word_count(word_count=word_count)
         return mnemonic_from_entropy(entropy=entropy[:width].hex())
@@ -122,7 +138,7 @@ class BIP85DeterministicEntropy(object):
         :param index: derivation index (default=0)
         :return: WIF private key
         """
-        path = "m/83696968'/2'/{}'".format(index)
+        path = "m/83696968'/2'/{}'".format(self.path_number(index))
         entropy = self.entropy(path=path)
         self.correct_key(key_bytes=entropy[:32])
         prv_key = PrivateKey(sec_exp=entropy[:32])
@@ -136,7 +152,7 @@ class BIP85DeterministicEntropy(object):
         :param index: derivation index (default=0)
         :return: extended private key (XPRV)
         """
-        path = "m/83696968'/32'/{}'".format(index)
+        path = "m/83696968'/32'/{}'".format(self.path_number(index))
         entropy = self.entropy(path=path)
         left, right = entropy[:32], entropy[32:]
         self.correct_key(right)
@@ -155,7 +171,9 @@ class BIP85DeterministicEntropy(object):
         if not 16 <= num_bytes <= 64:
             raise ValueError("Incorrect number of bytes specified."
                              " Has to be in closed interval <16-64>")
-        path = "m/83696968'/128169'/{}'/{}'".format(num_bytes, index)
+        path = "m/83696968'/128169'/{}'/{}'".format(
+            self.path_number(num_bytes), self.path_number(index)
+        )
         entropy = self.entropy(path=path)
         return entropy[:num_bytes].hex()
 
@@ -236,7 +254,9 @@ class BIP85DeterministicEntropy(object):
         if not 20 <= pwd_len <= 86:
             raise ValueError("Incorrect password length specified."
                              " Has to be in closed interval <20-86>")
-        path = "m/83696968'/707764'/{}'/{}'".format(pwd_len, index)
+        path = "m/83696968'/707764'/{}'/{}'".format(
+            self.path_number(pwd_len), self.path_number(index)
+        )
         entropy = self.entropy(path=path)
         entropy_b64 = base64.b64encode(entropy).decode().strip()
         pwd = entropy_b64[:pwd_len]
